@@ -1,7 +1,8 @@
 """C11 — source text is read with the documented precedence, literals and comments."""
 
-THEOREM_MODULES = ["Hcl.Theorems.C11", "Hcl.Tie.Lexer", "Hcl.Tie.Grammar", "Hcl.Tie.Preamble"]
-THEOREMS = {"Hcl.Theorems.C11": ["C11_block_comment", "C11_hash_comment", "C11_slash_comment", "C11_blank_space", "C11_pairs_and_triples_grouped", "C11_unary_slice_in", "Grouping.level_documented", "Grouping.slice_tightest", "Grouping.unary_slice_needs_parentheses", "Grouping.in_level", "Lexer.skipBlock_skips", "C11_model_tiers_documented", "C11_grammar_tiers_documented", "C11_grammar_ops_documented",
+THEOREM_MODULES = ["Hcl.Theorems.C11", "Hcl.Theorems.C11Fuel", "Hcl.Tie.Lexer", "Hcl.Tie.Grammar", "Hcl.Tie.Preamble"]
+THEOREMS = {"Hcl.Theorems.C11Fuel": ["C11_parser_fuel_monotone", "C11_parser_fuel_enough", "C11_parser_fuel_independent"],
+            "Hcl.Theorems.C11": ["C11_block_comment", "C11_hash_comment", "C11_slash_comment", "C11_blank_space", "C11_pairs_and_triples_grouped", "C11_unary_slice_in", "Grouping.level_documented", "Grouping.slice_tightest", "Grouping.unary_slice_needs_parentheses", "Grouping.in_level", "Lexer.skipBlock_skips", "C11_model_tiers_documented", "C11_grammar_tiers_documented", "C11_grammar_ops_documented",
                                  "C11_preamble_values", "C11_binary", "C11_hex", "C11_decimal", "C11_digit"]}
 
 RULE = ("S-PARSE: every ordered pair of binary operators in both groupings, every unary operator and 'in' against every binary "
